@@ -273,12 +273,26 @@ def _yanny_stub(world):
         vals = {'object': obj, 'method': method, 'aesthetics': 'mean', 'run2d': 'v5_7_0', 'run1d': 'v5_7_0',
                 'wavemin': '3500.0', 'wavemax': '9000.0', 'snmax': '100', 'niter': '10', 'nkeep': '4', 'minuse': '3',
                 'nonnegative': '0', 'epsilon': '0.1', 'EIGENOBJ': Benign()}
+        # a parameter file may carry keywords the pipeline does not know (choice made by the solver)
+        extra = world.choose('par.extra', [None, 'rundate', 'home'])
+        if extra:
+            vals[extra] = '2010-01-01'
         if missing:
             del vals[missing]
         if invalid:
             vals[invalid] = 'not-a-number'
-        return vals
+        return ParStub(vals)
     return yanny
+
+
+class ParStub(dict):
+    """what template_metadata may use of a yanny object: a mapping with pairs() and tables()"""
+
+    def tables(self):
+        return [k for k in self if k == 'EIGENOBJ']
+
+    def pairs(self):
+        return [k for k in self if k != 'EIGENOBJ']
 
 
 def install(world, window, spec1d, yanny_mod, astro_mod, real_os):
